@@ -3,10 +3,15 @@
    arithmetic abstraction is never labelled valid; refinement happens at most once).
    Statements only; proofs are `exact <lemma from Proofs/SolveProofs.v>`.
    Gen/GenRefine.v (parse_const_value arms, is_model_valid marker, halmos_var_pattern
-   prefixes / value syntaxes) is regenerated from /repo/src/halmos/solve.py on every run. *)
+   prefixes / value syntaxes, the f-strings of dump) and Gen/GenSolveFs.v (the statement
+   sequences of dump and solve_low_level: which file is written, when, under which guards,
+   which file the solver is started on; the literals of PathContext.dump_file) are
+   regenerated from /repo/src/halmos/solve.py on every run. *)
 From Coq Require Import ZArith List String Bool.
 From HV Require Import Model.SexpDefs Gen.GenRefine Spec.SmtQuerySpec Model.SmtTextModel
-  Model.SolveModel Proofs.SolveProofs.
+  Model.SolveModel Proofs.SolveProofs
+  Model.SolveFsDefs Gen.GenSolveFs Model.SolveFsModel Proofs.SolveFsProofs Proofs.SolveTieProofs.
+From HV Require Spec.VerdictSpec Gen.GenSolveDispatch.
 Import ListNotations.
 Open Scope Z_scope.
 
@@ -68,6 +73,113 @@ Theorem C04_refine_once :
     (k = 2 -> is_refined = false /\ changes = true /\ exists s, from_result out1 = OSat false s).
 Proof. exact solve_e2e_invocations. Qed.
 Print Assumptions C04_refine_once.
+
+(* ---- the control-flow model above is hand-written; T-solvedispatch regenerates from solve.py
+   the `match first_line` of from_result (first_line_class), the marker and the guard under
+   which solve_end_to_end solves a second time (refine_guard).  The model is exactly that: *)
+Theorem C04_from_result_follows_source :
+  forall out,
+    class_of (from_result out) = GenSolveDispatch.first_line_class (first_line out) /\
+    GenSolveDispatch.invalid_marker = GenRefine.invalid_marker.
+Proof. intros out. split; [apply from_result_class | exact markers_agree]. Qed.
+Print Assumptions C04_from_result_follows_source.
+
+Theorem C04_e2e_follows_source :
+  forall core_hit is_refined out1 changes out2,
+    solve_e2e core_hit is_refined out1 changes out2 =
+    if core_hit then (OUnsat, 0)
+    else if GenSolveDispatch.refine_guard (out_is_sat (from_result out1)) (out_valid (from_result out1)) is_refined
+            && changes
+         then (from_result out2, 2)
+         else (from_result out1, 1).
+Proof. exact solve_e2e_by_guard. Qed.
+Print Assumptions C04_e2e_follows_source.
+
+(* ---- the dump directory is state that outlives a query: with --dump-smt-directory it is
+   shared by overloads of a test, by the probes of an invariant test and by successive halmos
+   runs, and path ids restart at 0, so files named like the current query's may already exist.
+
+   Whatever the directory holds (d is arbitrary), solve_low_level hands the solver the text
+   of the CURRENT query, returns from_result of the answer to that text (unknown on a
+   timeout), and leaves the current query and that answer in <path id>[.refined].smt2[.out] *)
+Theorem C04_solver_handed_current_query :
+  forall (solver : solver_t) (c : pctx) (d : dir),
+  exists d1,
+    run_low solver c d =
+      (Some (match solver (Some (query_text c)) with Some (o, _) => from_result o | None => OUnknown end), d1) /\
+    dir_get d1 (dump_name c) = Some (query_text c) /\
+    (forall o e, solver (Some (query_text c)) = Some (o, e) ->
+                 dir_get d1 (dump_name c ++ ".out") = Some o).
+Proof. exact run_low_current_query. Qed.
+Print Assumptions C04_solver_handed_current_query.
+
+(* solve_end_to_end on a directory is SolveModel.solve_e2e on the solver's answers to the
+   text of the current query and to the text of its refinement *)
+Theorem C04_e2e_on_current_answers :
+  forall (solver : solver_t) (rf : string -> string) core_hit (c : pctx) (d : dir),
+    fst (solve_e2e_fs solver rf core_hit c d) =
+    (let ok := solve_e2e core_hit (refined c) (answer_text solver (query_text c))
+                 (negb (String.eqb (rf (smtlib c)) (smtlib c)))
+                 (answer_text solver (query_text (refine_ctx rf c))) in
+     (Some (fst ok), snd ok)).
+Proof. exact solve_e2e_fs_spec. Qed.
+Print Assumptions C04_e2e_on_current_answers.
+
+(* hence the result and the number of solver runs do not depend on files left behind by
+   another path, test or run *)
+Theorem C04_outcome_independent_of_dump_directory :
+  forall (solver : solver_t) (rf : string -> string) core_hit (c : pctx) (d d' : dir),
+    fst (solve_e2e_fs solver rf core_hit c d) = fst (solve_e2e_fs solver rf core_hit c d').
+Proof. exact solve_e2e_fs_dir_independent. Qed.
+Print Assumptions C04_outcome_independent_of_dump_directory.
+
+(* with a sound solver (a printed model satisfies the file the solver was handed), a model
+   labelled valid satisfies the current query or, after a first model that depended on an
+   abstraction, its refinement - for every previous content of the directory *)
+Theorem C04_valid_cex_satisfies_current_query :
+  forall (satisfies : string -> string -> Prop) (solver : solver_t),
+    (forall q o e, solver (Some q) = Some (o, e) -> first_line o = "sat"%string -> satisfies o q) ->
+    forall (rf : string -> string) core_hit (c : pctx) (d : dir) s k d',
+      solve_e2e_fs solver rf core_hit c d = (Some (OSat true s), k, d') ->
+      contains invalid_marker s = false /\
+      (satisfies s (query_text c) \/
+       (refined c = false /\ satisfies s (query_text (refine_ctx rf c)))).
+Proof. exact valid_cex_satisfies_current_query. Qed.
+Print Assumptions C04_valid_cex_satisfies_current_query.
+
+(* the paths of one function are solved concurrently in one directory: distinct
+   (path id, is_refined) pairs never share a query file, and a query file is never the
+   .out / .err file of another query - so no path's query is overwritten while its solver runs *)
+Theorem C04_query_files_distinct :
+  forall c1 c2 : pctx, 0 <= path_id c1 -> 0 <= path_id c2 ->
+    dump_name c1 = dump_name c2 -> path_id c1 = path_id c2 /\ refined c1 = refined c2.
+Proof. exact dump_name_inj. Qed.
+Print Assumptions C04_query_files_distinct.
+
+Theorem C04_query_file_is_no_output_file :
+  forall (c1 c2 : pctx) sfx, 0 <= path_id c1 -> 0 <= path_id c2 ->
+    sfx = ".out"%string \/ sfx = ".err"%string ->
+    dump_name c1 <> (dump_name c2 ++ sfx)%string.
+Proof. exact dump_name_not_output. Qed.
+Print Assumptions C04_query_file_is_no_output_file.
+
+(* a stale 0.smt2 / 0.smt2.out of another query (x = 42) is in the directory; the solver
+   answers by the text it is handed; the current query (x = 43) gets its own answer *)
+Example C04_stale_files_nonvacuous :
+  let stale := ("(set-logic QF_AUFBV)" ++ nl ++ "(assert (= p_x_uint256_00 #x2a))" ++ nl ++ "(check-sat)" ++ nl ++ "(get-model)" ++ nl)%string in
+  let solver : solver_t := fun f =>
+    match f with
+    | Some t => if String.eqb t stale
+                then Some ("sat" ++ nl ++ "(define-fun p_x_uint256_00 () (_ BitVec 256) #x2a)", "")%string
+                else Some ("sat" ++ nl ++ "(define-fun p_x_uint256_00 () (_ BitVec 256) #x2b)", "")%string
+    | None => Some (""%string, "no such file"%string)
+    end in
+  let c := mkCtx 0 false false "(assert (= p_x_uint256_00 #x2b))" [] in
+  dump_name c = "0.smt2"%string /\
+  fst (solve_e2e_fs solver (fun s => s) false c [("0.smt2"%string, stale); ("0.smt2.out"%string, "sat"%string)]) =
+    (Some (OSat true ("sat" ++ nl ++ "(define-fun p_x_uint256_00 () (_ BitVec 256) #x2b)")), 1) /\
+  dump_name (refine_ctx (fun s => s) c) = "0.refined.smt2"%string.
+Proof. vm_compute. repeat split; reflexivity. Qed.
 
 Example C04_nonvacuous :
   parse_const_value "#b00101010" = Some 42 /\ parse_const_value "#x2A" = Some 42 /\
